@@ -255,6 +255,40 @@ def make_harness(model_bytes, ra, rb):
       e.check('C14.calibrate.dataset_not_modified',
               [(id(s), {k: id(v) for k, v in s.items()}) for s in data]
               == data_snap, info=['S4'])
+      # S4b: a previous result as a user may hand it over after saving it
+      # (float64 arrays, Python floats, nested lists): same contract
+      cq = P.concrete_qsvs(inp, None)
+      prev2 = {}
+      for j, (k_, v_) in enumerate(sorted(cq.items())):
+        if j % 3 == 0:
+          prev2[k_] = {kk: np.asarray(vv, np.float64) * 1.0000001
+                       for kk, vv in v_.items()}
+        elif j % 3 == 1:
+          prev2[k_] = {kk: [float(np.asarray(vv).reshape(-1)[0])]
+                       for kk, vv in v_.items()}
+        else:
+          prev2[k_] = {kk: np.asarray(vv, np.float32) for kk, vv in v_.items()}
+      before2 = copy.deepcopy(prev2)
+      ids2 = {k_: {kk: id(vv) for kk, vv in v_.items()}
+              for k_, v_ in prev2.items()}
+      try:
+        quantizer_lib.Quantizer(bytes(keep_bytes), copy.deepcopy(ra)).calibrate(
+            ds(), key, prev2)
+      except Inconclusive:
+        raise
+      except Exception:  # pylint: disable=broad-except
+        pass
+      same2 = set(prev2) == set(before2) and all(
+          set(prev2[k_]) == set(before2[k_]) and all(
+              id(prev2[k_][kk]) == ids2[k_][kk]
+              and type(prev2[k_][kk]) is type(before2[k_][kk])
+              and getattr(prev2[k_][kk], 'dtype', None) == getattr(
+                  before2[k_][kk], 'dtype', None)
+              and np.array_equal(np.asarray(prev2[k_][kk]),
+                                 np.asarray(before2[k_][kk]))
+              for kk in before2[k_]) for k_ in before2)
+      e.check('C14.calibrate.previous_result_not_modified', same2,
+              info=['S4b float64 / list / float32 previous result'])
       # S5: update_quantization_recipe history then quantize == fresh(recipe)
       q5 = quantizer_lib.Quantizer(bytes(keep_bytes), copy.deepcopy(ra))
       capture_quantize(q5, fresh_res())
@@ -614,6 +648,34 @@ def replay(c):
         return bytes(q.quantize(res).quantized_model)
     except Exception as ex:  # pylint: disable=broad-except
       return f'{type(ex).__name__}: {ex}'
+  # a previous calibration result that is not made of float32 arrays
+  try:
+    from props import c09 as _c09
+    key_, sd_ = _c09.signatures(inp)[0]
+    sg_ = inp.subgraphs[sd_.subgraphIndex]
+    sample = {}
+    for tm in sd_.inputs:
+      t_ = sg_.tensors[tm.tensorIndex]
+      nm_ = tm.name.decode() if isinstance(tm.name, bytes) else tm.name
+      sample[nm_] = np.ones(tuple(t_.shape), np.float32) if t_.type == 0 \
+          else np.zeros(tuple(t_.shape), fakeinterp.NP[t_.type])
+    prev2 = {k_: {kk: np.asarray(vv, np.float64) * 1.0000001
+                  for kk, vv in v_.items()} for k_, v_ in base.items()}
+    before2 = copy.deepcopy(prev2)
+    q_ = quantizer_lib.Quantizer(mb, copy.deepcopy(ra))
+    if q_.need_calibration:
+      q_.calibrate([sample], key_, prev2)
+      for k_ in before2:
+        for kk in before2[k_]:
+          a_, b_ = np.asarray(prev2[k_][kk]), before2[k_][kk]
+          if a_.dtype != b_.dtype or not np.array_equal(a_, b_):
+            bad.append('calibrate() rewrote the previous calibration result '
+                       f'it was given ({k_}/{kk}: {b_.dtype} -> {a_.dtype})')
+            break
+        if bad:
+          break
+  except Exception:  # pylint: disable=broad-except
+    pass
   # caller-owned recipe lists
   for rr, tag in ((ra, 'A'), (rb, 'B')):
     mine = copy.deepcopy(rr)
